@@ -411,7 +411,7 @@ func runC01(ctx *core.Ctx, pool *par.Pool) {
 	if !ctx.Quick() {
 		cfgs = []pagedrv.Cfg{pagedrv.CfgA, pagedrv.CfgB, pagedrv.CfgC, pagedrv.CfgF}
 		depth, seedDepth, maxBits = 9, 8, 12
-		ctx.SetBudget(28 * time.Minute)
+		ctx.SetBudget(15 * time.Minute)
 	}
 	runs := plan(cfgs, []seed{seedWAL, seedFrag, seedTail}, depth, seedDepth)
 	share := ctx.Budget() / time.Duration(len(runs))
